@@ -111,7 +111,7 @@ def framing (r : WReq) : Except WErr Framing :=
     let m := methodOrGet r.method
     let cl0 : Int := if !r.hasBody then 0 else if r.contentLength != 0 then r.contentLength else -1
     if cl0 < 0 then
-      if m == sCONNECT then .ok ⟨true, false, -1⟩
+      if m == sCONNECT then .ok ⟨true, false, cl0⟩
       else if methodUsuallyLacksBody m then
         -- probe one byte
         if r.body.isEmpty then .ok ⟨false, false, 0⟩ else .ok ⟨true, true, -1⟩
